@@ -14,7 +14,9 @@ p='/verif/seeded/%s/meta.json'%i
 m=json.load(open(p))
 prop=m['property']
 m.setdefault('detection',{})[tier]={"check":prop,"exit_code":int(rc) if rc else None,"detected":rc=="1","first_violation":out.split('::',1)[1].strip()[:300] if '::' in out else ''}
-m['detected_by']=[prop] if any(v.get('detected') for v in m['detection'].values()) else []
+own=[prop] if m['detection'].get(tier,{}).get('detected') or any(v.get('detected') for v in m['detection'].values()) else []
+cross=[c for c,v in m.get('cross_detection',{}).items() if v.get('detected')]
+m['detected_by']=own+[c for c in cross if c not in own]
 json.dump(m,open(p,'w'),indent=1)
 PY
 done
